@@ -83,11 +83,18 @@ def rust_bitfield(d):
     lines.append('#[bitbybit::bitfield(%s)]' % ', '.join(args))
     lines.append('pub struct %s {' % d['name'])
     for f in d['fields']:
-        if f.get('doc'):
+        if f.get('doc') and not f.get('doc_after'):
             lines.append('    /// documented field %s' % f['name'])
         lines.append('    %s' % rust_attr(f))
+        if f.get('doc') and f.get('doc_after'):
+            lines.append('    /// documented field %s (after its bit attribute)' % f['name'])
         lines.append('    %s: %s,' % (f['name'], rust_field_ty(f)))
     lines.append('}')
+    if d.get('module'):
+        # the declaration lives in a module of its own so that names it introduces (a default constant called MASK, RAW,
+        # ZERO ...) can coincide with names the macro uses internally without clashing with other corpus members
+        return ['/// wrapper module', 'pub mod m_%s {' % d['name'].lower(), '#[allow(unused_imports)]', 'use super::*;'] + lines + \
+               ['}', 'pub use m_%s::%s;' % (d['name'].lower(), d['name'])]
     return lines
 
 
